@@ -76,7 +76,7 @@ func c18Child(c *mon.Child) {
 		c.Violation("", "build", fmt.Sprintf("Unquote parsers do not build: %v %v %v", err1, err1b, err2), nil)
 		return
 	}
-	n := c.N(20000, 150000)
+	n := c.N(20000, 600000)
 	r := c.RNG("strings")
 	for i := 0; i < n; i++ {
 		s := c18String(r)
@@ -194,6 +194,7 @@ func c18Child(c *mon.Child) {
 		}
 		c.Nontrivial("bad:" + lit)
 	}
+	c18Combined(c)
 	// Upper and Map: exactly the selected types, positions untouched, each token once, in order, before elision.
 	nm := c.N(3000, 20000)
 	words := []string{"abc", "Hello", "x1", "ünï", "12", "7", `"q s"`, "'c'", "`r`", "-", ";", ","}
@@ -281,6 +282,83 @@ func c18Child(c *mon.Child) {
 		c.Feature("map_call_logs_compared")
 		if len(raw) >= 4 {
 			c.Nontrivial(fmt.Sprintf("map:%v:%s", sel, input))
+		}
+		c.End(key)
+	}
+}
+
+// c18Combined checks a parser with several mapper options selecting different
+// token types at once: each token must get exactly its own type's mappers.
+func c18Combined(c *mon.Child) {
+	var log []lexer.Token
+	p, err := participle.Build[c18S](participle.Lexer(c18Lex), participle.Elide("WS"),
+		participle.Unquote("String"), participle.Upper("Ident"),
+		participle.Map(func(t lexer.Token) (lexer.Token, error) {
+			log = append(log, t)
+			t.Value = "<" + t.Value + ">"
+			return t, nil
+		}, "Num"))
+	if err != nil {
+		c.Violation("", "combined", "parser with Unquote+Upper+Map does not build: "+err.Error(), nil)
+		return
+	}
+	sym := c18Lex.Symbols()
+	words := []string{"abc", "Hello", "x1", "12", "7", `"q s"`, `"a\"b"`, "'c d'", "`r w`", "-", ";"}
+	n := c.N(3000, 20000)
+	for i := 0; i < n; i++ {
+		key := fmt.Sprintf("cmb%d", i)
+		if !c.Want(key) {
+			continue
+		}
+		rr := c.RNG("combined", i)
+		var sb strings.Builder
+		for k := rr.Range(1, 9); k > 0; k-- {
+			sb.WriteString(words[rr.Intn(len(words))])
+			sb.WriteString(rr.Pick(" ", "  ", "\n"))
+		}
+		input := sb.String()
+		c.Begin(key, fmt.Sprintf("combined mappers <- %q", input))
+		c.Eval(1)
+		raw, lerr := lexer.ConsumeAll(mustLex(c18Lex.LexString("c.txt", input)))
+		if lerr != nil {
+			c.End(key)
+			continue
+		}
+		log = nil
+		var mapped []lexer.Token
+		var merr error
+		if pn, pv, _ := mon.Guard(func() { mapped, merr = p.Lex("c.txt", strings.NewReader(input)) }); pn {
+			c.Violation("", key, "Parser.Lex with combined mappers panicked: "+pv+fmt.Sprintf(" | input %q", input), nil)
+			c.End(key)
+			continue
+		}
+		if merr != nil || len(mapped) != len(raw) {
+			c.Violation("", key, fmt.Sprintf("combined mappers: %d mapped tokens (err %v), %d raw tokens | input %q", len(mapped), merr, len(raw), input), nil)
+			c.End(key)
+			continue
+		}
+		for j, t := range raw {
+			want := t
+			switch t.Type {
+			case sym["String"]:
+				if u, err := strconv.Unquote(t.Value); err == nil {
+					want.Value = u
+				} else if t.Value[0] == '\'' {
+					want.Value = strings.ReplaceAll(t.Value[1:len(t.Value)-1], `\'`, "'")
+				}
+			case sym["Ident"]:
+				want.Value = strings.ToUpper(t.Value)
+			case sym["Num"]:
+				want.Value = "<" + t.Value + ">"
+			}
+			if mapped[j] != want {
+				c.Violation("", key, fmt.Sprintf("combined Unquote(String)+Upper(Ident)+Map(Num): token #%d is %#v, expected %#v | input %q", j, mapped[j], want, input), map[string]interface{}{"input": input})
+				break
+			}
+		}
+		c.Feature("combined_mapper_streams_compared")
+		if len(raw) >= 4 {
+			c.Nontrivial("combined:" + input)
 		}
 		c.End(key)
 	}
